@@ -521,7 +521,17 @@ class Engine:
     def e_JoinedStr(self, node, st, fid):
         subs = [v.value for v in node.values if isinstance(v, ast.FormattedValue)]
         outs = self.eval_many(subs, st, fid)
-        return self.bind(outs, lambda s, vs: [("ok", s, VOpaque("fstring"))])
+        h = self.hooks.get("joined_str")
+
+        def mk(s, vs):
+            # hook "joined_str"(eng, st, node, values of the formatted fields in order): a contract module that needs the CONTENT of
+            # an f-string (names of solver objects) builds it; without a hook / answer the string stays opaque
+            if h:
+                r = h(self, s, node, vs)
+                if r is not None:
+                    return r
+            return [("ok", s, VOpaque("fstring"))]
+        return self.bind(outs, mk)
 
     def e_Tuple(self, node, st, fid):
         if any(isinstance(e, ast.Starred) for e in node.elts):
